@@ -23,14 +23,20 @@ CONSTANTS
  ExtraPids = {9}
  Rcs = {0}
  Cleans = {FALSE, TRUE}
- SPs = {FALSE, TRUE}
  KAs = {0}
- RMs = {1, 99999}
- TAMs = {99999}
- MPSs = {99999}
- SEIs = {10, 99999}
- SKAs = {99999}
+ ConnRMs = {1, 99999}
+ ConnTAMs = {99999}
+ ConnMPSs = {99999}
+ ConnSEIs = {10, 99999}
+ SPs = {FALSE, TRUE}
  ConnackRcs = {0}
+ AckRMs = {99999}
+ AckTAMs = {99999}
+ AckMPSs = {99999}
+ AckSEIs = {99999}
+ SKAs = {99999}
+ RogueHandshake = FALSE
+ PartialFrames = FALSE
  Intervals = {}
  Fire = FALSE
  Close = TRUE
